@@ -169,7 +169,7 @@ def declaration_programs():
              ('first_long', 'second_long'), ('A', 'B', 'long_name'), ('long_name', 'B', 'A'), ('D', 'A'), ('_A', 'A')]
     for names in pools:
         for extra in (0, 1, 3):                       # how often an unrelated, frequently used global is mentioned
-            for style in ('global', 'nonlocal', 'global-twice', 'global-split'):
+            for style in ('global', 'nonlocal', 'global-twice', 'global-split', 'global-unbound'):
                 uses = ' + '.join(['frequent_value'] * (extra + 1))
                 body = []
                 for i, n in enumerate(names):
@@ -184,6 +184,9 @@ def declaration_programs():
                     src += 'def update():\n    global %s\n' % ', '.join(names) + ''.join('    %s\n' % l for l in body)
                     src += 'def again():\n    global %s\n' % ', '.join(reversed(names)) + ''.join('    %s\n' % l for l in body[:1])
                     src += 'update()\nagain()\nprint(frequent_value, %s)\n' % ', '.join(names)
+                elif style == 'global-unbound':
+                    # declared global and only read: the module never binds these names (they are set from outside, or builtins)
+                    src = 'frequent_value = 1\ndef read_all():\n    global %s\n    return [frequent_value, %s]\n' % (', '.join(names), ', '.join(n + ' + ' + n for n in names))
                 elif style == 'global-split':
                     src = 'frequent_value = 1\n' + ''.join('%s = %d\n' % (n, i + 2) for i, n in enumerate(names))
                     src += 'def update():\n    global %s\n    global %s\n' % (names[0], ', '.join(names[1:])) + ''.join('    %s\n' % l for l in body)
@@ -264,3 +267,16 @@ def parameter_programs():
         out.append(('param-two/%s' % o, 'def scale(%s, factor_value):\n    return %s * factor_value * factor_value * factor_value\n' % (o, o)))
         out.append(('param-kwonly/%s' % o, 'def scale(*values_list, %s=2):\n    return [value_item * %s for value_item in values_list] + values_list\n' % (o, o)))
     return out
+
+
+def private_name_programs():
+    """identifiers of the form __name inside a class are mangled to _Class__name by the compiler: inside the class they are
+    different names from an outer __name, and they depend on the spelling of the class name"""
+    return [
+        ('private/global-vs-class', "__counter_value = 5\nclass TallyClass:\n    def read_value(self):\n        try:\n            return __counter_value\n        except NameError:\n            return 'mangled'\nprint(TallyClass().read_value())\n"),
+        ('private/local-vs-class', "def outer_function():\n    __secret_value = 1\n    class BoxClass:\n        def peek_value(self):\n            try:\n                return __secret_value\n            except NameError:\n                return 'mangled'\n    return BoxClass().peek_value()\nprint(outer_function())\n"),
+        ('private/class-attr', "class HolderClass:\n    __hidden_value = 3\n    def get_value(self):\n        return self.__hidden_value + HolderClass.__hidden_value\nprint(HolderClass().get_value(), HolderClass._HolderClass__hidden_value)\n"),
+        ('private/param', "class HolderClass:\n    def method_one(self, __private_param, other_param):\n        __local_value = __private_param + other_param\n        return __local_value + __local_value\nprint(HolderClass().method_one(1, 2))\n"),
+        ('private/nested-class', "class OuterClass:\n    __outer_private = 1\n    class InnerClass:\n        __inner_private = 2\n        def read_value(self):\n            return self.__inner_private\nprint(OuterClass.InnerClass().read_value())\n"),
+        ('private/function-local-class', "def make_class():\n    class LocalClass:\n        __slot_value = 7\n        def read_value(self):\n            return self.__slot_value\n    return LocalClass\nprint(make_class()().read_value(), make_class()._LocalClass__slot_value)\n"),
+    ]
